@@ -36,11 +36,12 @@ NAMES = sorted(PARTS)
 
 def base_rules(tier, r):
     """constructor keyword recipes (JSON-able)"""
-    out = []
+    per_freq = []
     nvar = 1 if tier == "quick" else 3
     for freq in range(7):
-        subsets = [()] + [(p,) for p in NAMES] + PAIRS
-        for _ in range(3 if tier == "quick" else 40):
+        out = []
+        subsets = [()] + [(p,) for p in NAMES] + (r.sample(PAIRS, 3) if tier == "quick" else PAIRS)
+        for _ in range(1 if tier == "quick" else 40):
             subsets.append(tuple(sorted(r.sample(NAMES, r.randint(2, 4)))))
         for sub in subsets:
             for _v in range(nvar):
@@ -54,7 +55,14 @@ def base_rules(tier, r):
                 for p in sub:
                     kw[p] = r.choice(PARTS[p])
                 out.append(kw)
-    return out
+        per_freq.append(out)
+    # interleave the frequencies so that a time budget cuts every freq equally
+    mixed = []
+    for j in range(max(len(x) for x in per_freq)):
+        for x in per_freq:
+            if j < len(x):
+                mixed.append(x[j])
+    return mixed
 
 
 def replacements(kw, tier, r):
@@ -118,12 +126,15 @@ def listing(rule):
 
 
 def outcome(fn):
+    """first 30 occurrences / exception class / "SLOW" when the rule scans for more than 0.15 s (sparse
+    sub-daily rules run towards year 9999: not comparable in the time a check has)"""
     try:
         with warnings.catch_warnings():
             warnings.simplefilter("ignore")
-            return listing(fn())
+            with R.watchdog(0.15):
+                return listing(fn())
     except R.Timeout:
-        raise
+        return "SLOW"
     except Exception as ex:
         return ["EXC", type(ex).__name__]
 
@@ -152,39 +163,6 @@ def one_case(kw, ch, source, cache):
 
 # ------------------------------------------------------------------ genuine defect classes (known findings)
 
-SAME_LEVEL = {4: ("byhour", 24), 5: ("byminute", 60), 6: ("bysecond", 60)}
-
-
-def _gcd(a, b):
-    while b:
-        a, b = b, a % b
-    return a
-
-
-def byset_dropped(kw):
-    """the rule's same-level BY-part lost members in __construct_byset (interval not coprime with the base)"""
-    if kw["freq"] not in SAME_LEVEL:
-        return False
-    name, base = SAME_LEVEL[kw["freq"]]
-    if kw.get(name) is None:
-        return False
-    d = R.to_dt(kw["dtstart"])
-    start = {4: d.hour, 5: d.minute, 6: d.second}[kw["freq"]]
-    g = _gcd(kw.get("interval", 1), base)
-    kept = [x for x in set(kw[name]) if g == 1 or (x - start) % g == 0]
-    return len(kept) != len(set(kw[name]))
-
-
-def matcher_replace_byset(payload):
-    """F-C12-replace-byset: HOURLY/MINUTELY/SECONDLY rule whose same-level BY-part was filtered by
-    __construct_byset at construction, replace() of dtstart / interval / freq / that BY-part's siblings"""
-    inp = payload.get("input") or {}
-    if inp.get("mode") != "replace":
-        return False
-    kw, ch = inp["base_kw"], inp["replace"]
-    return byset_dropped(kw) and any(k in ch for k in ("dtstart", "interval", "freq"))
-
-
 def matcher_replace_nth(payload):
     """F-C12-replace-nth: byweekday with an occurrence number on a rule with freq > MONTHLY (the number is
     dropped when recording), replace(freq=YEARLY/MONTHLY)"""
@@ -194,3 +172,91 @@ def matcher_replace_nth(payload):
     kw, ch = inp["base_kw"], inp["replace"]
     return (kw["freq"] > 1 and any(n for (_w, n) in (kw.get("byweekday") or [])) and
             ch.get("freq") is not None and ch["freq"] <= 1 and "byweekday" not in ch)
+
+
+def run_stream(tier, r, budget_s, on_case, on_rule=None):
+    """drive the stream: on_case(kw, ch, source, cache, replaced, constructed) for every comparable case.
+    Returns counters."""
+    import time
+    from dateutil import rrule as rr
+    t0 = time.time()
+    st = {"rules": 0, "cases": 0, "slow_skipped": 0, "rules_skipped_slow": 0, "by_freq": {}, "by_kw": {},
+          "by_source": {"ctor": 0, "rrulestr": 0}, "stopped_by_time_budget": False}
+    k = 0
+    for kw in base_rules(tier, r):
+        if time.time() - t0 > budget_s:
+            st["stopped_by_time_budget"] = True
+            break
+        if outcome(lambda: rr.rrule(**R._kw(rr, kw))) == "SLOW":
+            st["rules_skipped_slow"] += 1
+            continue
+        st["rules"] += 1
+        if on_rule is not None:
+            on_rule(kw)
+        for ch in replacements(kw, tier, r):
+            k += 1
+            sources = ["ctor"] + (["rrulestr"] if (tier == "thorough" or k % 3 == 0) else [])
+            for source in sources:
+                cache = (k % 2 == 0)
+                a, b = one_case(kw, ch, source, cache)
+                if a == "SLOW" or b == "SLOW":
+                    st["slow_skipped"] += 1
+                    continue
+                st["cases"] += 1
+                st["by_source"][source] += 1
+                f = str(kw["freq"])
+                st["by_freq"][f] = st["by_freq"].get(f, 0) + 1
+                key = "+".join(sorted(ch)) or "(none)"
+                st["by_kw"][key] = st["by_kw"].get(key, 0) + 1
+                on_case(kw, ch, source, cache, a, b)
+    return st
+
+
+# ------------------------------------------------------------------ the recorded dictionary vs the Coq model
+
+KEYS = ["bysetpos", "bymonth", "bymonthday", "byyearday", "byeaster", "byweekno", "byhour", "byminute",
+        "bysecond"]
+
+
+def record_args(kw):
+    """arguments of oracle entry 40 for the constructor recipe kw"""
+    d = R.to_dt(kw["dtstart"])
+    a = [kw["freq"], 0, d.year, d.month, d.day, d.hour, d.minute, d.second, kw.get("interval", 1)]
+    for k in KEYS:
+        v = kw.get(k)
+        a += [0] if v is None else [1, len(v)] + list(v)
+    v = kw.get("byweekday")
+    if v is None:
+        a += [0]
+    else:
+        a += [1, 2 * len(v)]
+        for (w, n) in v:
+            a += [w, n or 0]
+    return a
+
+
+def record_impl(kw, source="ctor"):
+    """rule._original_rule in the encoding of ExtractRcache.record_entry"""
+    from dateutil import rrule as rr
+    R.set_tz(None)
+    with warnings.catch_warnings():
+        warnings.simplefilter("ignore")
+        rule = rr.rrulestr(render_rfc(kw)) if source == "rrulestr" else rr.rrule(**R._kw(rr, kw))
+    o = rule._original_rule
+    out = []
+    for k in KEYS:
+        if k not in o:
+            out += [0]
+        elif o[k] is None:
+            out += [1]
+        else:
+            out += [2, len(o[k])] + [int(x) for x in o[k]]
+    if "byweekday" not in o:
+        out += [0]
+    elif o["byweekday"] is None:
+        out += [1]
+    else:
+        out += [2, len(o["byweekday"])]
+        for w in o["byweekday"]:
+            out += [w.weekday, w.n or 0]
+    return out
